@@ -12,6 +12,22 @@ import (
 // evaluated over every function, closure and declared init function of every
 // module package present in the loaded variant.
 func (e *Env) tableImmutability(rule string, pkgs ...string) {
+	e.tableImmutabilityOf(rule, false, pkgs...)
+}
+
+// dataTablesOf: the packages whose data tables (maps of strings, numbers, enumeration values: code, weight and
+// name tables) the rules of a property read through the table model. The model reads their *initialisers*; that
+// is the table's content only if nothing modifies it afterwards, which is therefore part of every such property.
+var dataTablesOf = map[string][]string{
+	"C01": {"v3/metric"}, "C02": {"v3/metric"}, "C03": {"v3/metric"},
+	"C04": {"v2/metric"}, "C05": {"v2/metric"},
+	"C07": {"v3/metric"}, "C08": {"v2/metric"},
+	"C09": {"v3/metric", "v2/metric"}, "C10": {"v3/metric", "v2/metric"}, "C11": {"v3/metric", "v2/metric"},
+	"C12": {"v3/metric", "v2/metric"}, "C13": {"v3/metric", "v2/metric"},
+	"C17": {"v3/report/names", "v3/metric"},
+}
+
+func (e *Env) tableImmutabilityOf(rule string, dataOnly bool, pkgs ...string) {
 	only := map[string]bool{}
 	for _, r := range pkgs {
 		only[load.ModPath+"/"+r] = true
@@ -36,6 +52,17 @@ func (e *Env) tableImmutability(rule string, pkgs ...string) {
 				continue // a property is only concerned with the variables of the packages it is anchored in
 			}
 			g := w.Root.Global
+			if dataOnly {
+				isData := false
+				for _, t := range e.F.AllTabs {
+					if t.Var != nil && t.Var.Pkg() == g.Pkg.Pkg && t.Var.Name() == g.Name() && t.IsData() {
+						isData = true
+					}
+				}
+				if !isData {
+					continue
+				}
+			}
 			key := fmt.Sprintf("%s.%s written in %s", load.Rel(g.Pkg.Pkg.Path()), g.Name(), fn.String())
 			if bad[key] {
 				continue
@@ -47,6 +74,9 @@ func (e *Env) tableImmutability(rule string, pkgs ...string) {
 	// one obligation per package-level variable of the library packages
 	for _, t := range e.F.AllTabs {
 		if len(only) > 0 && !only[t.Pkg.PkgPath] {
+			continue
+		}
+		if dataOnly && !t.IsData() {
 			continue
 		}
 		k := load.Rel(t.Pkg.PkgPath) + "." + t.Name
